@@ -2,8 +2,8 @@
 import ast
 import re
 
-from ..core import AnalysisError, src, qualname_of, closure_walk
-from ..pysym import SymExec, show, subterms, str_parts, argof, guards_of
+from ..core import AnalysisError, src, qualname_of, closure_walk, enclosing_function
+from ..pysym import SymExec, show, subterms, str_parts, argof, guards_of, own_params, self_call_pred, all_calls
 from ..rules_pyx import N, C, A
 from .. import codec
 from .. import logic
@@ -134,7 +134,7 @@ def r_candc(repo, rep, R='R15.1'):
 
 def r_jigg(repo, rep, R='R15.2'):
     jm = repo.module(JX)
-    proc = jm.get('_ConvertToJiggXML.process')
+    proc, _trav = _jigg_roles(jm)
     tj = jm.get('to_jigg_xml')
     span_sets = set_calls(proc)
     els = elements(proc)
@@ -148,7 +148,7 @@ def r_jigg(repo, rep, R='R15.2'):
     tok_var = [v for v, t in tok_els.items() if t == 'token']
     tok_sets = set_calls(tj)
     tok_attrs = set(tok_sets.get(tok_var[0], {})) if tok_var else set()
-    w = '%s:%s _ConvertToJiggXML.process' % (JX, proc.lineno)
+    w = '%s:%s %s' % (JX, proc.lineno, qualname_of(proc))
     rm = repo.module(RD)
     rj = rm.get('read_jigg_xml')
     reads = attrib_reads(rj)
@@ -184,81 +184,171 @@ def r_jigg(repo, rep, R='R15.2'):
         return ''.join(v.value if isinstance(v, ast.Constant) else '{}' for v in node.values)
     rep.check(term is not None and tid is not None and shape(term) == shape(tid) == 's{}_{}', R, w, 'jigg:terminal-template',
               'terminal references and token ids share the template s<sentence>_<token index>', 'terminal template %s, token id template %s' % (shape(term), shape(tid)))
-    init = jm.get('_ConvertToJiggXML.__init__')
-    conv = [n for n in ast.walk(tj) if isinstance(n, ast.Call) and src(n.func) == '_ConvertToJiggXML']
     tloop = [l for l in ast.walk(tj) if isinstance(l, ast.For) and isinstance(l.iter, ast.Call) and src(l.iter.func) == 'enumerate']
-    ok = bool(conv) and bool(tloop)
+    ok = bool(tloop) and isinstance(term, ast.JoinedStr) and isinstance(tid, ast.JoinedStr)
     if ok:
         sent_idx = tloop[0].target.elts[0].id if isinstance(tloop[0].target, ast.Tuple) else None
-        ok = src(conv[0].args[0]) == sent_idx and 'self.sid = sid' in src(init)
         tokloop = [l for l in ast.walk(tj) if isinstance(l, ast.For) and l is not tloop[0] and isinstance(l.iter, ast.Call) and src(l.iter.func) == 'enumerate']
-        ok = ok and bool(tokloop) and isinstance(tid, ast.JoinedStr) and [src(v.value) for v in tid.values if isinstance(v, ast.FormattedValue)] == \
-            [sent_idx, tokloop[0].target.elts[0].id]
-        ok = ok and isinstance(term, ast.JoinedStr) and [src(v.value) for v in term.values if isinstance(v, ast.FormattedValue)][0] == 'self.sid'
+        ok = bool(tokloop) and [src(v.value) for v in tid.values if isinstance(v, ast.FormattedValue)] == [sent_idx, tokloop[0].target.elts[0].id]
+        first = [src(v.value) for v in term.values if isinstance(v, ast.FormattedValue)][0]
+        cls_ = proc._parent if isinstance(getattr(proc, '_parent', None), ast.ClassDef) else None
+        same_sentence = False
+        if first.startswith('self.') and cls_ is not None:
+            # the sentence number is a field of the per-sentence converter, set from the constructor argument
+            fld = first[5:]
+            init = [f_ for f_ in cls_.body if isinstance(f_, ast.FunctionDef) and f_.name == '__init__']
+            q = None
+            for x in (ast.walk(init[0]) if init else ()):
+                if isinstance(x, ast.Assign) and any(src(t) == 'self.' + fld for t in x.targets) and isinstance(x.value, ast.Name):
+                    q = x.value.id
+            ips = [a.arg for a in init[0].args.args][1:] if init else []
+            for n in ast.walk(tj):
+                if isinstance(n, ast.Call) and src(n.func) == cls_.name and q in ips:
+                    i_ = ips.index(q)
+                    got = n.args[i_] if len(n.args) > i_ else next((k.value for k in n.keywords if k.arg == q), None)
+                    same_sentence = got is not None and src(got) == sent_idx
+        else:
+            # ... or a parameter of the per-tree function, filled by the caller
+            cps = [a.arg for a in proc.args.args]
+            if first in cps:
+                i_ = cps.index(first)
+                for n in ast.walk(tj):
+                    if isinstance(n, ast.Call) and src(n.func) == proc.name:
+                        got = n.args[i_] if len(n.args) > i_ else next((k.value for k in n.keywords if k.arg == first), None)
+                        same_sentence = got is not None and src(got) == sent_idx
+        ok = ok and same_sentence
     rep.check(ok, R, w, 'jigg:same-indices', 'both templates are filled with the sentence index and the running leaf / token index',
               'terminal reference and token id are not filled from the same (sentence, position) pair')
     return span_attrs
 
 
+def _jigg_roles(jm):
+    """-> (ccg_fn, trav): the function that creates the <ccg> element of one tree and the recursive span writer it uses,
+    wherever they live (method + closure, method + method, module function + closure)"""
+    ccg_fn = None
+    for fn in [f for f in ast.walk(jm.tree) if isinstance(f, ast.FunctionDef)]:
+        if any(isinstance(c, ast.Call) and src(c.func) in ('etree.Element', 'Element') and c.args and isinstance(c.args[0], ast.Constant)
+               and c.args[0].value == 'ccg' and enclosing_function(c) is fn for c in ast.walk(fn)):
+            ccg_fn = fn
+    if ccg_fn is None:
+        raise AnalysisError('%s: no function creates the <ccg> element' % JX)
+    nested = [n for n in ast.walk(ccg_fn) if isinstance(n, ast.FunctionDef) and n is not ccg_fn and enclosing_function(n) is ccg_fn]
+    trav = nested[0] if len(nested) == 1 else jm._helper_by_role(ccg_fn, nested)
+    if trav is None:
+        raise AnalysisError('%s: recursive span writer of %s not found' % (JX, ccg_fn.name))
+    return ccg_fn, trav
+
+
 def r_ids(repo, rep, R='R15.3'):
     jm = repo.module(JX)
-    trav = jm.get('_ConvertToJiggXML.process.traverse')
-    p = trav.args.args[0].arg
-    w = '%s:%s traverse' % (JX, trav.lineno)
+    ccg_fn, trav = _jigg_roles(jm)
+    tps = own_params(trav)
+    p = [x for x in tps if x in ('node', 'tree')]
+    p = p[0] if p else tps[0]
+    w = '%s:%s %s' % (JX, trav.lineno, trav.name)
+    is_self = self_call_pred(trav)
+    cls = ccg_fn._parent if isinstance(getattr(ccg_fn, '_parent', None), ast.ClassDef) else None
 
     def on_call(st, t, node):
-        if t[1][0] == 'func' and t[1][1] == trav.name and t[2]:
-            a = t[2][0]
+        if is_self(t[1]) and t[2]:
+            bound = dict(zip(tps, t[2]))
+            bound.update({k: v for k, v in t[3] if k is not None})
+            a = bound.get(p, t[2][0])
             tag = a[2] if a[0] == 'attr' and a[1] == N(p) else show(a)
             st.data.setdefault('order', []).append(tag)
-            return ('tuple', (('sym', 'id-of', tag), ('sym', 'start-of', tag)))
+            st.data.setdefault('recargs', []).append((tag, bound))
+            return ('sym', 'ret-of', tag)
         return None
+
+    # the value returned to the parent: a tuple or a record; which component is the id
+    def components(t):
+        if t is None:
+            return None
+        if t[0] == 'tuple':
+            return list(t[1]), None
+        if t[0] == 'call' and t[1][0] == 'name':
+            return list(t[2]) + [v for _, v in t[3]], t[1]
+        return None
+
+    def is_fresh(x):
+        """a read that takes the next number of a counter: self.<property> or next(<counter>)"""
+        if x[0] == 'attr' and x[1] == N('self') and cls is not None:
+            prop = [s_ for s_ in cls.body if isinstance(s_, ast.FunctionDef) and s_.name == x[2] and any('property' in src(d) for d in s_.decorator_list)]
+            return bool(prop)
+        return x[0] == 'call' and x[1] == N('next') and len(x[2]) == 1
+
+    props = tuple(s_.name for s_ in (cls.body if cls is not None else []) if isinstance(s_, ast.FunctionDef) and any('property' in src(d) for d in s_.decorator_list))
     kinds = {}
-    for st, o in SymExec(trav, on_call=on_call, init_env={trav.name: ('func', trav.name, id(trav))}, watch_attrs=('spid',)).run():
+    id_counter = None
+    rec_fields = None
+    paths = SymExec(trav, on_call=on_call, init_env={trav.name: ('func', trav.name, id(trav))}, watch_attrs=props).run()
+    for st, o in paths:
         if o != 'return':
             continue
         conds = [(c, pol) for c, pol, _ in st.conds]
-        reads = [i for i, e in enumerate(st.events) if e[0] == 'getattr' and e[2] == 'spid' and e[1] == N('self')]
-        recs = [i for i, e in enumerate(st.events) if e[0] == 'call' and e[1][1][0] == 'func' and e[1][1][1] == trav.name]
         sets = {}
         for e in st.events:
             if e[0] == 'call' and e[1][1][0] == 'attr' and e[1][1][2] == 'set' and len(e[1][2]) == 2 and e[1][2][0][0] == 'const':
                 sets[e[1][2][0][1]] = e[1][2][1]
         idt = sets.get('id')
-        once = len(reads) == 1 and (not recs or reads[0] < recs[0]) and idt is not None and idt[0] == 'fstr' and \
-            any(isinstance(x, tuple) and x == A(N('self'), 'spid') for x in idt[1])
-        ret_ok = st.ret is not None and st.ret[0] == 'tuple' and st.ret[1][0] == idt
-        leaf = (A(N(p), 'is_leaf'), True) in conds
-        unary = (A(N(p), 'is_unary'), True) in conds or (('unop', 'not', A(N(p), 'is_unary')), False) in conds
+        fresh_in_id = [x for x in (idt[1] if idt is not None and idt[0] == 'fstr' else ()) if isinstance(x, tuple) and is_fresh(x)]
+        comp = components(st.ret)
+        if comp is None:
+            kinds['?'] = (False, False, False, show(st.ret)[:40] if st.ret else None)
+            continue
+        parts, rcls = comp
+        i_id = parts.index(idt) if idt in parts else None
+        if rcls is not None and rec_fields is None:
+            ex = SymExec(trav)
+            rec_fields = ex.record_fields(rcls)
+        # reads of the id counter on this path, and where recursion starts
+        once = False
+        if len(fresh_in_id) == 1:
+            fr = fresh_in_id[0]
+            id_counter = fr
+            if fr[0] == 'attr':
+                reads = [i for i, e in enumerate(st.events) if e[0] == 'getattr' and e[1] == fr[1] and e[2] == fr[2]]
+            else:
+                reads = [i for i, e in enumerate(st.events) if e[0] == 'call' and e[1] == fr]
+            recs = [i for i, e in enumerate(st.events) if e[0] == 'call' and is_self(e[1][1])]
+            once = len(reads) == 1 and (not recs or reads[0] < recs[0])
+        ret_ok = i_id is not None
+
+        def child_id(tag):
+            forms = [('unpack', ('sym', 'ret-of', tag), i_id if i_id is not None else 0)]
+            if rec_fields and i_id is not None and i_id < len(rec_fields):
+                forms.append(('attr', ('sym', 'ret-of', tag), rec_fields[i_id]))
+            return forms
+        leaf = logic.implied(conds, logic.formula(A(N(p), 'is_leaf')))
+        unary = logic.implied(conds, logic.formula(A(N(p), 'is_unary')))
         kind = 'leaf' if leaf else ('unary' if unary else 'binary')
         child = sets.get('child')
         if kind == 'leaf':
             child_ok = child is None and 'terminal' in sets
         elif kind == 'unary':
-            child_ok = child is not None and (child in (('sym', 'id-of', 'left_child'), ('sym', 'id-of', 'child')) or
-                                              str_parts(child) in ([('sym', 'id-of', 'left_child')], [('sym', 'id-of', 'child')]))
+            cands = child_id('left_child') + child_id('child')
+            child_ok = child is not None and (child in cands or any(str_parts(child) == [c_] for c_ in cands))
         else:
-            L, Rr = ('sym', 'id-of', 'left_child'), ('sym', 'id-of', 'right_child')
-            child_ok = child is not None and str_parts(child) == [L, ' ', Rr] \
+            child_ok = child is not None and any(str_parts(child) == [l_, ' ', r_] for l_ in child_id('left_child') for r_ in child_id('right_child')) \
                 and st.data.get('order') == ['left_child', 'right_child']
-        kinds[kind] = (once, ret_ok, child_ok, show(child)[:60] if child else None)
+        prev = kinds.get(kind, (True, True, True, None))
+        kinds[kind] = (prev[0] and once, prev[1] and ret_ok, prev[2] and child_ok, show(child)[:60] if child else None)
     for kind in ('leaf', 'unary', 'binary'):
         if kind not in kinds:
-            rep.violation(R, w, 'jigg:traverse:%s' % kind, 'traverse has no %s path' % kind)
+            rep.violation(R, w, 'jigg:traverse:%s' % kind, '%s has no %s path' % (trav.name, kind))
             continue
         once, ret_ok, child_ok, ctext = kinds[kind]
         rep.check(once, R, w, 'jigg:id-once:' + kind, '%s span: the id is built exactly once, before recursing, from the advancing counter, and written as the span id' % kind,
                   '%s span: the id counter is not read exactly once before recursion / not written as id' % kind)
-        rep.check(ret_ok, R, w, 'jigg:return-id:' + kind, '%s span returns its own id to the parent' % kind, '%s span does not return its own id first' % kind)
+        rep.check(ret_ok, R, w, 'jigg:return-id:' + kind, '%s span returns its own id to the parent' % kind, '%s span does not return its own id' % kind)
         rep.check(child_ok, R, w, 'jigg:child-list:' + kind,
                   '%s span: %s' % (kind, 'carries a terminal reference and no child list' if kind == 'leaf' else 'child is the blank-joined list of the ids its children returned, left first'),
                   '%s span: child attribute is %s' % (kind, ctext))
-    # the leaf position used for terminal references and offsets restarts at 0 for every tree
-    proc0 = jm.get('_ConvertToJiggXML.process')
+    # the leaf position used for terminal references restarts at 0 for every tree and advances by one per leaf
     pos_ok = False
     pos_detail = 'no leaf path'
-    for st, o in SymExec(trav, on_call=on_call, init_env={trav.name: ('func', trav.name, id(trav))}).run():
-        if o != 'return' or not any(c == A(N(p), 'is_leaf') and pol for c, pol, _ in st.conds):
+    for st, o in paths:
+        if o != 'return' or not logic.implied([(c, pol) for c, pol, _ in st.conds], logic.formula(A(N(p), 'is_leaf'))):
             continue
         term_set = [e[1][2][1] for e in st.events if e[0] == 'call' and e[1][1][0] == 'attr' and e[1][1][2] == 'set' and e[1][2] and e[1][2][0] == C('terminal')]
         if not term_set or term_set[0][0] != 'fstr':
@@ -266,50 +356,125 @@ def r_ids(repo, rep, R='R15.3'):
             continue
         fields = [x for x in term_set[0][1] if isinstance(x, tuple)]
         pos = fields[-1]
-        augs = [e for e in st.events if e[0] == 'aug' and e[1] == pos]
-        if pos[0] != 'name':
-            pos_detail = 'the leaf position %s is not a counter local to one call of process()' % show(pos)
-            continue
-        inits = [s_ for s_ in proc0.body if isinstance(s_, ast.Assign) and any(isinstance(t, ast.Name) and t.id == pos[1] for t in s_.targets)]
-        other = [n for n in ast.walk(proc0) if isinstance(n, (ast.AugAssign, ast.Assign)) and n not in inits and
-                 any(isinstance(t, ast.Name) and t.id == pos[1] for t in (n.targets if isinstance(n, ast.Assign) else [n.target]))]
-        pos_ok = len(inits) == 1 and src(inits[0].value) == '0' and len(augs) == 1 and augs[0][2] == '+' and augs[0][3] == C(1) and len(other) == 1
-        pos_detail = 'position variable %s: initialised %s, leaf updates %s, other writes %d' % (pos[1], [src(i.value) for i in inits], [(a[2], show(a[3])) for a in augs], len(other) - 1)
+        if pos[0] == 'name' and pos[1] in tps:
+            # threaded: the position is a parameter; the first tree call passes 0, the left child inherits it, the right child
+            # continues where the left one ended, a leaf ends one further
+            P = pos[1]
+            comp = components(st.ret)
+            parts = comp[0] if comp else []
+            leaf_end = ('binop', '+', N(P), C(1)) in parts or ('binop', '+', C(1), N(P)) in parts
+            i_pos = [i for i, x in enumerate(parts) if x in (('binop', '+', N(P), C(1)), ('binop', '+', C(1), N(P)))]
+            ok_thread = leaf_end
+            for st2, o2 in paths:
+                if o2 != 'return':
+                    continue
+                ra = st2.data.get('recargs', [])
+                c2 = components(st2.ret)
+                parts2 = c2[0] if c2 else []
+                ends = lambda tag: [('unpack', ('sym', 'ret-of', tag), i_pos[0])] + ([('attr', ('sym', 'ret-of', tag), rec_fields[i_pos[0]])] if rec_fields and i_pos and i_pos[0] < len(rec_fields) else []) if i_pos else []
+                if len(ra) >= 1:
+                    ok_thread = ok_thread and ra[0][1].get(P) == N(P)
+                if len(ra) == 2:
+                    ok_thread = ok_thread and ra[1][1].get(P) in ends(ra[0][0]) and bool(i_pos) and parts2[i_pos[0]] in ends(ra[1][0])
+                elif len(ra) == 1:
+                    ok_thread = ok_thread and bool(i_pos) and parts2[i_pos[0]] in ends(ra[0][0])
+            starts = []
+            for st3, o3 in SymExec(ccg_fn, unroll=1, no_inline=(trav.name,)).run():
+                for c_ in all_calls(st3):
+                    if is_self(c_[1]) or c_[1] == N(trav.name) or (c_[1][0] == 'func' and c_[1][2] == id(trav)):
+                        bound = dict(zip(tps, c_[2]))
+                        bound.update({k: v for k, v in c_[3] if k is not None})
+                        starts.append(bound.get(P))
+            pos_ok = ok_thread and bool(starts) and all(x == C(0) for x in starts)
+            pos_detail = 'position parameter %s: first call passes %s, threading %s' % (P, [show(x) if x else None for x in starts], 'ok' if ok_thread else 'broken')
+        elif pos[0] == 'name':
+            augs = [e for e in st.events if e[0] == 'aug' and e[1] == pos]
+            inits = [s_ for s_ in ccg_fn.body if isinstance(s_, ast.Assign) and any(isinstance(t, ast.Name) and t.id == pos[1] for t in s_.targets)]
+            other = [n for n in ast.walk(ccg_fn) if isinstance(n, (ast.AugAssign, ast.Assign)) and n not in inits and
+                     any(isinstance(t, ast.Name) and t.id == pos[1] for t in (n.targets if isinstance(n, ast.Assign) else [n.target]))]
+            aug_ok = len(augs) == 1 and augs[0][2] == '+' and augs[0][3] == C(1) and len(other) == 1
+            init0 = len(inits) == 1 and src(inits[0].value) == '0'
+            # or: bound in the leaf branch to next(<per-tree counter>)
+            pos_ok = init0 and aug_ok
+            pos_detail = 'position variable %s: initialised %s, leaf updates %s, other writes %d' % (pos[1], [src(i.value) for i in inits], [(a[2], show(a[3])) for a in augs], len(other) - 1)
+        elif pos[0] == 'call' and pos[1] == N('next') and len(pos[2]) == 1 and pos[2][0][0] == 'name':
+            cn = pos[2][0][1]
+            inits = [s_ for s_ in ccg_fn.body if isinstance(s_, ast.Assign) and any(isinstance(t, ast.Name) and t.id == cn for t in s_.targets)]
+            reads = [e for e in st.events if e[0] == 'call' and e[1] == pos]
+            pos_ok = len(inits) == 1 and src(inits[0].value).replace(' ', '') in ('itertools.count()', 'count()', 'itertools.count(0)', 'count(0)') and len(reads) == 1 \
+                and cn not in [a.arg for a in ccg_fn.args.args]
+            pos_detail = 'per-tree counter %s = %s, read %d time(s) per leaf' % (cn, [src(i.value) for i in inits], len(reads))
+        else:
+            pos_detail = 'the leaf position %s is not a counter local to one tree' % show(pos)
     rep.check(pos_ok, R, w, 'jigg:leaf-position', 'the leaf position starts at 0 for every tree and advances by one per leaf (%s)' % pos_detail,
               'terminal references / offsets of the 2nd and later n-best trees are shifted: %s' % pos_detail)
-    sp = jm.get('_ConvertToJiggXML.spid', required=False)
-    if sp is None:
-        rep.violation(R, w, 'jigg:counter', 'span ids are not drawn from a counter owned by the per-sentence converter: ids restart for every tree, so the n-best trees of a sentence share ids')
-    else:
-        ok = any('property' in src(d) for d in sp.decorator_list)
-        for st, o in SymExec(sp).run():
-            augs = [e for e in st.events if e[0] == 'aug' and e[1] == A(N('self'), '_spid') and e[2] == '+' and e[3] == C(1)]
-            ok = ok and len(augs) == 1 and st.ret == A(N('self'), '_spid')
-        init_ = jm.get('_ConvertToJiggXML.__init__')
-        ok = ok and any(isinstance(x, ast.Assign) and src(x.targets[0]) == 'self._spid' for x in ast.walk(init_)) and \
-            not any(isinstance(x, (ast.Assign, ast.AugAssign)) and 'self._spid' in src(x).split('=')[0] for x in ast.walk(jm.get('_ConvertToJiggXML.process')))
-        rep.check(ok, R, '%s:%s spid' % (JX, sp.lineno), 'jigg:counter', 'the id counter belongs to the per-sentence converter, starts once and advances by one on every read',
-                  'the span id counter does not advance on every read, or is reset per tree')
-    proc = jm.get('_ConvertToJiggXML.process')
+    # the span-id counter lives as long as one sentence: created once per sentence, never reset per tree
+    tj = jm.get('to_jigg_xml')
+    okc = False
+    cdetail = 'span ids are not drawn from a counter'
+    if id_counter is not None:
+        src_t = id_counter if id_counter[0] == 'attr' else id_counter[2][0]
+        if src_t[0] == 'attr' and src_t[1] == N('self') and cls is not None:
+            init_ = [s_ for s_ in cls.body if isinstance(s_, ast.FunctionDef) and s_.name == '__init__']
+            if id_counter[0] == 'attr':
+                sp = [s_ for s_ in cls.body if isinstance(s_, ast.FunctionDef) and s_.name == id_counter[2]][0]
+                okp = True
+                backing = None
+                for st, o in SymExec(sp).run():
+                    augs = [e for e in st.events if e[0] == 'aug' and e[1][0] == 'attr' and e[1][1] == N('self') and e[2] == '+' and e[3] == C(1)]
+                    okp = okp and len(augs) == 1 and st.ret == augs[0][1]
+                    backing = augs[0][1][2] if augs else None
+            else:
+                okp, backing = True, src_t[2]
+            writes = [x for f_ in cls.body if isinstance(f_, ast.FunctionDef) and f_.name != '__init__' for x in ast.walk(f_)
+                      if isinstance(x, ast.Assign) and any(src(t) == 'self.%s' % backing for t in x.targets)]
+            inited = bool(init_) and any(isinstance(x, ast.Assign) and any(src(t) == 'self.%s' % backing for t in x.targets) and
+                                         (id_counter[0] == 'attr' or src(x.value).replace(' ', '') in ('itertools.count()', 'count()', 'itertools.count(0)', 'count(0)'))
+                                         for x in ast.walk(init_[0]))
+            # one converter object per sentence, used for all its trees
+            conv_in_outer = False
+            for l in [x for x in ast.walk(tj) if isinstance(x, ast.For)]:
+                for s_ in l.body:
+                    if isinstance(s_, ast.Assign) and isinstance(s_.value, ast.Call) and src(s_.value.func) == cls.name:
+                        cv = src(s_.targets[0])
+                        inner = [q for q in l.body if isinstance(q, ast.For) and any(isinstance(n, ast.Call) and src(n.func).startswith(cv + '.') for n in ast.walk(q))]
+                        conv_in_outer = bool(inner)
+            okc = okp and inited and not writes and conv_in_outer
+            cdetail = 'counter self.%s: advances on every read %s, initialised once %s, reset elsewhere %d, one converter per sentence %s' % (backing, okp, inited, len(writes), conv_in_outer)
+        elif src_t[0] == 'name':
+            # a counter handed to the per-tree function: created once per sentence in the caller
+            cparam = src_t[1]
+            okc = False
+            cdetail = 'counter parameter %s' % cparam
+            if cparam in [a.arg for a in ccg_fn.args.args]:
+                idx = [a.arg for a in ccg_fn.args.args].index(cparam)
+                for l in [x for x in ast.walk(tj) if isinstance(x, ast.For)]:
+                    made = [s_ for s_ in l.body if isinstance(s_, ast.Assign) and src(s_.value).replace(' ', '') in ('itertools.count()', 'count()', 'itertools.count(0)', 'count(0)')]
+                    for mk in made:
+                        cv = src(mk.targets[0])
+                        inner = [q for q in l.body if isinstance(q, ast.For) and any(
+                            isinstance(n, ast.Call) and src(n.func) == ccg_fn.name and ((len(n.args) > idx and src(n.args[idx]) == cv) or any(k.arg == cparam and src(k.value) == cv for k in n.keywords))
+                            for n in ast.walk(q))]
+                        if inner:
+                            okc = True
+                            cdetail = 'counter %s is created once per sentence and handed to %s for each of its trees' % (cv, ccg_fn.name)
+    rep.check(okc, R, w, 'jigg:counter', 'the span-id counter belongs to one sentence and is shared by all its n-best trees (%s)' % cdetail,
+              'span ids are not unique within a sentence: %s' % cdetail)
+    rep.check(okc, R, '%s:%s to_jigg_xml' % (JX, tj.lineno), 'jigg:converter-per-sentence',
+              'one id counter per sentence, shared by all its n-best trees (ids unique within the sentence)', 'the id counter is not created once per sentence')
+    # root refers to the id returned for the top span
     okroot = False
-    for st, o in SymExec(proc, unroll=1).run():
+    for st, o in SymExec(ccg_fn, unroll=1, no_inline=(trav.name,)).run():
         for e in st.events:
             if e[0] == 'call' and e[1][1][0] == 'attr' and e[1][1][2] == 'set' and len(e[1][2]) == 2 and e[1][2][0] == C('root'):
                 v = e[1][2][1]
                 inner = v[2][0] if v[0] == 'call' and v[1] == N('str') and v[2] else v
-                if inner[0] == 'unpack' and inner[2] == 0 and inner[1][0] == 'call' and inner[1][1][0] == 'func' and inner[1][2] and inner[1][2][0] == N(proc.args.args[1].arg):
-                    okroot = True
-    rep.check(okroot, R, '%s:%s process' % (JX, proc.lineno), 'jigg:root', 'root refers to the id returned for the top span of the tree', 'root is not set from the id returned by traverse(tree)')
-    tj = jm.get('to_jigg_xml')
-    conv_in_outer = False
-    for l in [x for x in ast.walk(tj) if isinstance(x, ast.For)]:
-        for s_ in l.body:
-            if isinstance(s_, ast.Assign) and isinstance(s_.value, ast.Call) and src(s_.value.func) == '_ConvertToJiggXML':
-                cv = src(s_.targets[0])
-                inner = [q for q in l.body if isinstance(q, ast.For) and any(isinstance(n, ast.Call) and src(n.func) == cv + '.process' for n in ast.walk(q))]
-                conv_in_outer = bool(inner)
-    rep.check(conv_in_outer, R, '%s:%s to_jigg_xml' % (JX, tj.lineno), 'jigg:converter-per-sentence',
-              'one id counter per sentence, shared by all its n-best trees (ids unique within the sentence)', 'the converter is not created once per sentence')
+                base = inner[1] if inner[0] in ('unpack', 'attr') else None
+                tree_params = [a.arg for a in ccg_fn.args.args if a.arg in ('tree', 'node')]
+                if base is not None and base[0] == 'call' and (is_self(base[1]) or base[1] == N(trav.name) or (base[1][0] == 'func' and base[1][2] == id(trav))) \
+                        and any(N(tp) in base[2] or any(v2 == N(tp) for _, v2 in base[3]) for tp in tree_params):
+                    okroot = (inner[0] == 'unpack' and inner[2] == 0) or (inner[0] == 'attr' and rec_fields and inner[2] == rec_fields[0])
+    rep.check(okroot, R, '%s:%s %s' % (JX, ccg_fn.lineno, ccg_fn.name), 'jigg:root', 'root refers to the id returned for the top span of the tree', 'root is not set from the id returned for the top span')
 
 
 def yaml_rules(repo, rel):
@@ -379,12 +544,13 @@ def r_ccg2lambda_vocab(repo, rep, R='R15.4'):
                   'the %s format calls to_jigg_xml with use_symbol=%s: Japanese nodes reach templates keyed on symbols carrying label strings'
                   % (fmt, [show(x) if x else 'default False' for x in (got or [])]))
     jm = repo.module(JX)
-    trav = jm.get('_ConvertToJiggXML.process.traverse')
-    pnode = trav.args.args[0].arg
-    want_rule = ('ifexp', A(N('self'), 'use_symbol'), A(N(pnode), 'op_symbol'), A(N(pnode), 'op_string'))
-    rules_set = {e[1][2][1] for st, o in SymExec(trav, unroll=1).run() for e in st.events
+    _ccg, trav = _jigg_roles(jm)
+    tps_ = own_params(trav)
+    pnode = ([x for x in tps_ if x in ('node', 'tree')] or tps_)[0]
+    want_rules = {('ifexp', u_, A(N(pnode), 'op_symbol'), A(N(pnode), 'op_string')) for u_ in (A(N('self'), 'use_symbol'), N('use_symbol'))}
+    rules_set = {e[1][2][1] for st, o in SymExec(trav, unroll=1, no_inline=(trav.name,)).run() for e in st.events
                  if e[0] == 'call' and e[1][1][0] == 'attr' and e[1][1][2] == 'set' and len(e[1][2]) == 2 and e[1][2][0] == C('rule')}
-    rep.check(rules_set == {want_rule}, R, '%s:%s traverse' % (JX, trav.lineno), 'jigg:rule-select',
+    rep.check(len(rules_set) == 1 and rules_set <= want_rules, R, '%s:%s traverse' % (JX, trav.lineno), 'jigg:rule-select',
               'the rule attribute is op_symbol when use_symbol else op_string', 'rule attribute is %s' % [show(x) for x in rules_set])
     return len(feeds)
 
